@@ -449,3 +449,417 @@ Proof.
     + intros [[H1 H2] [H3 [H4 H5]]]. repeat split; [constructor|constructor|]; assumption.
     + intros [H1 [H2 H3]]. inversion H1; subst. inversion H2; subst. repeat split; assumption.
 Qed.
+
+(** * D. sklearn KFold without shuffling *)
+
+Lemma consec_length s sizes : length (consec s sizes) = length sizes.
+Proof. revert s. induction sizes as [|x t IH]; intros s; cbn; [reflexivity|f_equal; apply IH]. Qed.
+
+Lemma consec_concat sizes : forall s, concat (consec s sizes) = seq s (list_sum sizes).
+Proof.
+  induction sizes as [|x t IH]; intros s; cbn [consec concat]; [reflexivity|].
+  rewrite IH, ls_cons, seq_app. reflexivity.
+Qed.
+
+Lemma consec_nonempty sizes : forall s, Forall (fun x => 0 < x) sizes -> Forall (fun f => f <> []) (consec s sizes).
+Proof.
+  induction sizes as [|x t IH]; intros s H; cbn [consec]; constructor; inversion H; subst.
+  - destruct x; [lia|discriminate].
+  - apply IH. assumption.
+Qed.
+
+Lemma fold_sizes_sum_gen q r m : forall a,
+  list_sum (map (fun j => q + (if j <? r then 1 else 0)) (seq a m)) = m * q + (Nat.min r (a + m) - Nat.min r a).
+Proof.
+  induction m as [|m IH]; intros a.
+  - cbn. rewrite Nat.add_0_r. lia.
+  - cbn [seq map]. rewrite ls_cons, IH. destruct (a <? r) eqn:E.
+    + apply Nat.ltb_lt in E. lia.
+    + apply Nat.ltb_ge in E. lia.
+Qed.
+
+Lemma fold_sizes_sum n k : 0 < k -> list_sum (fold_sizes n k) = n.
+Proof.
+  intros Hk. unfold fold_sizes. rewrite fold_sizes_sum_gen.
+  assert (Hm := Nat.mod_upper_bound n k ltac:(lia)).
+  assert (E := Nat.div_mod n k ltac:(lia)). lia.
+Qed.
+
+Lemma fold_sizes_length n k : length (fold_sizes n k) = k.
+Proof. unfold fold_sizes. rewrite map_length, seq_length. reflexivity. Qed.
+
+Theorem kfold_length n k : length (kfold n k) = k.
+Proof. unfold kfold. rewrite consec_length. apply fold_sizes_length. Qed.
+
+Theorem kfold_concat n k : 0 < k -> concat (kfold n k) = seq 0 n.
+Proof. intros Hk. unfold kfold. rewrite consec_concat, fold_sizes_sum by exact Hk. reflexivity. Qed.
+
+Theorem kfold_nonempty n k : 0 < k -> k <= n -> Forall (fun f => f <> []) (kfold n k).
+Proof.
+  intros Hk Hn. unfold kfold. apply consec_nonempty. unfold fold_sizes.
+  rewrite Forall_forall. intros x Hx. apply in_map_iff in Hx as [j [<- _]].
+  assert (1 <= n / k) by (apply Nat.div_le_lower_bound; lia). lia.
+Qed.
+
+(** folds are runs of consecutive indices whose lengths differ by at most one *)
+Theorem kfold_runs n k :
+  Forall (fun f => exists s m, f = seq s m /\ n / k <= m <= n / k + 1) (kfold n k).
+Proof.
+  unfold kfold.
+  cut (forall s, Forall (fun f => exists s m, f = seq s m /\ n / k <= m <= n / k + 1) (consec s (fold_sizes n k)));
+    [intros H; apply H|].
+  assert (H : Forall (fun m => n / k <= m <= n / k + 1) (fold_sizes n k)).
+  { unfold fold_sizes. rewrite Forall_forall. intros x Hx. apply in_map_iff in Hx as [j [<- _]].
+    destruct (j <? n mod k); lia. }
+  induction H as [|m t Hm Ht IH]; intros s; cbn [consec]; constructor.
+  - exists s, m. split; [reflexivity|exact Hm].
+  - apply IH.
+Qed.
+
+(** * E. from blocks to points; the sklearn split *)
+
+Lemma In_where_isin labels B j :
+  In j (where_isin labels B) <-> j < length labels /\ In (lab labels j) B.
+Proof.
+  unfold where_isin. rewrite filter_In, in_seq, memb_In. split; intros [H1 H2]; split; try assumption; lia.
+Qed.
+
+Lemma where_isin_NoDup labels B : NoDup (where_isin labels B).
+Proof. apply NoDup_filter, seq_NoDup. Qed.
+
+Lemma filter_memb_filter (P : nat -> bool) s :
+  filter (fun j => memb j (filter P s)) s = filter P s.
+Proof.
+  apply filter_ext_in. intros j Hj.
+  destruct (P j) eqn:E.
+  - apply memb_In, filter_In. split; assumption.
+  - apply memb_false. rewrite filter_In. intros [_ H]. congruence.
+Qed.
+
+Lemma sk_split_test labels B :
+  snd (sk_split (length labels) (where_isin labels B)) = where_isin labels B.
+Proof. unfold sk_split, where_isin. cbn [snd]. apply filter_memb_filter. Qed.
+
+Lemma sk_split_perm n t : Permutation (fst (sk_split n t) ++ snd (sk_split n t)) (seq 0 n).
+Proof. unfold sk_split. cbn [fst snd]. apply (filter_neg_perm (fun j => memb j t)). Qed.
+
+Lemma sk_split_blocks labels B i j :
+  In i (fst (sk_split (length labels) (where_isin labels B))) ->
+  In j (snd (sk_split (length labels) (where_isin labels B))) ->
+  lab labels i <> lab labels j.
+Proof.
+  rewrite sk_split_test. unfold sk_split. cbn [fst]. rewrite filter_In, in_seq, negb_true_iff, memb_false.
+  rewrite !In_where_isin. intros [Hi Hn] [Hj Hb] E. apply Hn. split; [lia|]. rewrite E. exact Hb.
+Qed.
+
+Lemma filter_map_swap {A B} (f : B -> bool) (g : A -> B) l :
+  filter f (map g l) = map g (filter (fun x => f (g x)) l).
+Proof.
+  induction l as [|x t IH]; cbn; [reflexivity|]. destruct (f (g x)); cbn; rewrite IH; reflexivity.
+Qed.
+
+Lemma count_filter labels x :
+  length (filter (fun j => nth j labels 0 =? x) (seq 0 (length labels))) = count labels x.
+Proof.
+  unfold count. induction labels as [|a t IH]; [reflexivity|].
+  change (seq 0 (length (a :: t))) with (0 :: seq 1 (length t)).
+  rewrite <- seq_shift. cbn [filter nth count_occ]. rewrite filter_map_swap.
+  cbn [nth]. destruct (Nat.eq_dec a x) as [->|Hne].
+  - rewrite Nat.eqb_refl. cbn [length]. rewrite map_length, IH. reflexivity.
+  - apply Nat.eqb_neq in Hne. rewrite Hne. rewrite map_length, IH. reflexivity.
+Qed.
+
+Lemma length_where_isin labels B : NoDup B ->
+  length (where_isin labels B) = list_sum (map (count labels) B).
+Proof.
+  induction B as [|x t IH]; intros Hn.
+  - unfold where_isin. cbn. induction (seq 0 (length labels)); [reflexivity|assumption].
+  - inversion Hn; subst. cbn [map]. rewrite ls_cons, <- IH by assumption. rewrite <- count_filter.
+    unfold where_isin. rewrite <- app_length. apply Permutation_length.
+    apply (filter_or_perm (fun j => nth j labels 0 =? x) (fun j => memb (lab labels j) t)).
+    intros j _. unfold lab. destruct (nth j labels 0 =? x) eqn:E; [|reflexivity].
+    apply Nat.eqb_eq in E. rewrite E. cbn. apply memb_false. assumption.
+Qed.
+
+Lemma where_isin_concat labels Ls : NoDup (concat Ls) ->
+  Permutation (concat (map (where_isin labels) Ls)) (where_isin labels (concat Ls)).
+Proof.
+  induction Ls as [|L t IH]; cbn [concat map]; intros Hn.
+  - unfold where_isin. cbn. induction (seq 0 (length labels)); [constructor|assumption].
+  - apply NoDup_app_inv in Hn as [H1 [H2 H3]].
+    eapply Permutation_trans; [apply Permutation_app_head, IH, H2|].
+    apply Permutation_sym. unfold where_isin.
+    erewrite filter_ext; [apply filter_or_perm|intros j; apply memb_app].
+    intros j _. destruct (memb (lab labels j) L) eqn:E; [|reflexivity].
+    apply memb_In in E. cbn. apply memb_false, H3, E.
+Qed.
+
+Lemma where_isin_all labels B :
+  (forall x, In x labels -> In x B) -> where_isin labels B = seq 0 (length labels).
+Proof.
+  intros H. apply filter_all. intros j Hj. apply in_seq in Hj. apply memb_In, H. apply nth_In. lia.
+Qed.
+
+Lemma where_isin_nonempty labels B x : In x B -> In x labels -> where_isin labels B <> [].
+Proof.
+  intros HB Hl E. destruct (In_nth labels x 0 Hl) as [j [Hj Hx]].
+  assert (In j (where_isin labels B)) by (apply In_where_isin; split; [exact Hj|unfold lab; rewrite Hx; exact HB]).
+  rewrite E in H. exact H.
+Qed.
+
+(** * F. BlockKFold *)
+
+(** the oracle of shuffle=True is a permutation of the block positions *)
+Definition shuffle_ok (labels : list nat) (shuffle : option (list nat)) : Prop :=
+  match shuffle with None => True | Some p => Permutation p (seq 0 (length (usort labels))) end.
+
+Lemma take_seq l : take l (seq 0 (length l)) = l.
+Proof. apply map_nth_seq. Qed.
+
+Lemma block_ids_perm labels shuffle : shuffle_ok labels shuffle ->
+  Permutation (block_ids labels shuffle) (usort labels).
+Proof.
+  destruct shuffle as [p|]; cbn; intros H; [|apply Permutation_refl].
+  rewrite <- (take_seq (usort labels)) at 2. apply Permutation_map, H.
+Qed.
+
+Lemma block_ids_NoDup labels shuffle : shuffle_ok labels shuffle -> NoDup (block_ids labels shuffle).
+Proof.
+  intros H. eapply Permutation_NoDup; [apply Permutation_sym, block_ids_perm, H|apply usort_NoDup].
+Qed.
+
+Lemma block_ids_In labels shuffle x : shuffle_ok labels shuffle ->
+  (In x (block_ids labels shuffle) <-> In x labels).
+Proof.
+  intros H. rewrite <- (usort_In x labels). split; apply Permutation_in; [|apply Permutation_sym]; apply block_ids_perm, H.
+Qed.
+
+Lemma block_ids_length labels shuffle : shuffle_ok labels shuffle ->
+  length (block_ids labels shuffle) = length (usort labels).
+Proof. intros H. apply Permutation_length, block_ids_perm, H. Qed.
+
+(** the test folds of the model, as lists of positions into the block ids *)
+Definition block_folds (labels : list nat) (n_splits : nat) (shuffle : option (list nat)) (balance : bool)
+  : bool * list (list nat) :=
+  let nb := length (usort labels) in
+  let ids := block_ids labels shuffle in
+  if balance then
+    match partition_by_sum (map (count labels) ids) n_splits with
+    | Some sp => (false, np_split (seq 0 nb) sp)
+    | None => (true, kfold nb n_splits)
+    end
+  else (false, kfold nb n_splits).
+
+Lemma block_kfold_eq labels k shuffle balance r :
+  block_kfold labels k shuffle balance = Some r ->
+  2 <= k <= length (usort labels) /\
+  r = (fst (block_folds labels k shuffle balance),
+       map (fun f => sk_split (length labels) (where_isin labels (take (block_ids labels shuffle) f)))
+           (snd (block_folds labels k shuffle balance))).
+Proof.
+  unfold block_kfold, block_folds.
+  destruct (k <? 2) eqn:E1; [discriminate|]. destruct (length (usort labels) <? k) eqn:E2; [discriminate|].
+  apply Nat.ltb_ge in E1, E2. cbn [orb]. intros H. injection H as <-. split; [lia|reflexivity].
+Qed.
+
+Lemma block_folds_props labels k shuffle balance :
+  shuffle_ok labels shuffle -> 2 <= k <= length (usort labels) ->
+  let folds := snd (block_folds labels k shuffle balance) in
+  length folds = k /\ concat folds = seq 0 (length (usort labels)) /\ Forall (fun f => f <> []) folds.
+Proof.
+  intros Hs Hk. unfold block_folds. set (nb := length (usort labels)) in *.
+  assert (Hkf : length (kfold nb k) = k /\ concat (kfold nb k) = seq 0 nb /\ Forall (fun f => f <> []) (kfold nb k)).
+  { repeat split; [apply kfold_length|apply kfold_concat; lia|apply kfold_nonempty; lia]. }
+  destruct balance; [|exact Hkf].
+  destruct (partition_by_sum (map (count labels) (block_ids labels shuffle)) k) as [sp|] eqn:E; [|exact Hkf].
+  cbn [snd]. destruct (pbs_structure _ _ _ E) as [Hl [Hss Hf]].
+  rewrite map_length, block_ids_length in Hf by exact Hs. fold nb in Hf.
+  assert (Hi : incr 0 sp (length (seq 0 nb))).
+  { rewrite seq_length. apply incr_of_sorted; [exact Hss|exact Hf|lia]. }
+  destruct (slices_incr (seq 0 nb) sp 0 Hi) as [H1 [H2 H3]].
+  unfold np_split. repeat split; [lia|exact H2|exact H3].
+Qed.
+
+Lemma NoDup_concat_In {A} (Ls : list (list A)) L : NoDup (concat Ls) -> In L Ls -> NoDup L.
+Proof.
+  induction Ls as [|L' t IH]; cbn; intros Hn Hi; [destruct Hi|]. destruct Hi as [->|Hi].
+  - apply NoDup_app_inv in Hn. tauto.
+  - apply IH; [|exact Hi]. apply NoDup_app_inv in Hn. tauto.
+Qed.
+
+Lemma In_concat_In {A} (Ls : list (list A)) L x : In L Ls -> In x L -> In x (concat Ls).
+Proof. intros H1 H2. apply in_concat. exists L. split; assumption. Qed.
+
+(** the label sets of the folds are disjoint pieces of the block ids *)
+Lemma take_folds ids folds : concat folds = seq 0 (length ids) ->
+  concat (map (take ids) folds) = ids.
+Proof. intros H. unfold take. rewrite <- concat_map, H. apply map_nth_seq. Qed.
+
+Section BlockKFold.
+Variables (labels : list nat) (k : nat) (shuffle : option (list nat)) (balance : bool).
+Variables (warned : bool) (splits : list (list nat * list nat)).
+Hypothesis Hshuffle : shuffle_ok labels shuffle.
+Hypothesis Hrun : block_kfold labels k shuffle balance = Some (warned, splits).
+
+Let ids := block_ids labels shuffle.
+Let folds := snd (block_folds labels k shuffle balance).
+Let n := length labels.
+
+Lemma bk_k : 2 <= k <= length (usort labels).
+Proof. apply (block_kfold_eq _ _ _ _ _ Hrun). Qed.
+
+Lemma bk_splits : splits = map (fun f => sk_split n (where_isin labels (take ids f))) folds.
+Proof. destruct (block_kfold_eq _ _ _ _ _ Hrun) as [_ H]. injection H as _ H. exact H. Qed.
+
+Lemma bk_warned : warned = fst (block_folds labels k shuffle balance).
+Proof. destruct (block_kfold_eq _ _ _ _ _ Hrun) as [_ H]. injection H as H _. exact H. Qed.
+
+Lemma bk_tests : map snd splits = map (fun f => where_isin labels (take ids f)) folds.
+Proof.
+  rewrite bk_splits, map_map. apply map_ext. intros f. apply sk_split_test.
+Qed.
+
+Lemma bk_folds : length folds = k /\ concat folds = seq 0 (length ids) /\ Forall (fun f => f <> []) folds.
+Proof.
+  unfold ids. rewrite block_ids_length by exact Hshuffle. apply block_folds_props; [exact Hshuffle|apply bk_k].
+Qed.
+
+(** exactly n_splits splits *)
+Theorem bk_count : length splits = k.
+Proof. rewrite bk_splits, map_length. apply bk_folds. Qed.
+
+(** every split partitions the sample indices *)
+Theorem bk_partition : Forall (fun s => Permutation (fst s ++ snd s) (seq 0 n)) splits.
+Proof.
+  rewrite bk_splits, Forall_forall. intros s Hs. apply in_map_iff in Hs as [f [<- _]]. apply sk_split_perm.
+Qed.
+
+(** no block has samples on both sides of a split *)
+Theorem bk_blocks_whole :
+  Forall (fun s => forall i j, In i (fst s) -> In j (snd s) -> lab labels i <> lab labels j) splits.
+Proof.
+  rewrite bk_splits, Forall_forall. intros s Hs. apply in_map_iff in Hs as [f [<- _]].
+  intros i j. apply sk_split_blocks.
+Qed.
+
+(** every test fold is non-empty *)
+Theorem bk_nonempty : Forall (fun s => snd s <> []) splits.
+Proof.
+  destruct bk_folds as [_ [Hc Hne]].
+  rewrite bk_splits, Forall_forall. intros s Hs. apply in_map_iff in Hs as [f [<- Hf]].
+  unfold n. rewrite sk_split_test. rewrite Forall_forall in Hne. specialize (Hne f Hf).
+  destruct f as [|b t]; [contradiction|].
+  assert (Hb : In (nth b ids 0) ids).
+  { apply nth_In. assert (Hin : In b (concat folds)) by (eapply In_concat_In; [exact Hf|left; reflexivity]).
+    rewrite Hc in Hin. apply in_seq in Hin. lia. }
+  apply (where_isin_nonempty labels _ (nth b ids 0)); [left; reflexivity|].
+  apply (block_ids_In labels shuffle); assumption.
+Qed.
+
+(** the test folds are pairwise disjoint and cover every sample exactly once *)
+Theorem bk_cover : Permutation (concat (map snd splits)) (seq 0 n).
+Proof.
+  destruct bk_folds as [_ [Hc _]].
+  rewrite bk_tests, <- (map_map (take ids) (where_isin labels)).
+  eapply Permutation_trans; [apply where_isin_concat|].
+  - rewrite take_folds by exact Hc. apply block_ids_NoDup, Hshuffle.
+  - rewrite take_folds by exact Hc. rewrite where_isin_all; [apply Permutation_refl|].
+    intros x Hx. apply (block_ids_In labels shuffle); assumption.
+Qed.
+
+Lemma take_map (g : nat -> nat) l f : Forall (fun b => b < length l) f ->
+  take (map g l) f = map g (take l f).
+Proof.
+  intros H. unfold take. rewrite map_map. apply map_ext_in. intros b Hb.
+  rewrite Forall_forall in H. specialize (H b Hb).
+  rewrite (nth_indep _ 0 (g 0)) by (rewrite map_length; exact H). apply map_nth.
+Qed.
+
+Lemma slices_map {A B} (g : A -> B) l idx : forall a, map (map g) (slices l a idx) = slices (map g l) a idx.
+Proof.
+  induction idx as [|b t IH]; intros a; cbn [slices map].
+  - rewrite skipn_map. reflexivity.
+  - rewrite IH, skipn_map, firstn_map. reflexivity.
+Qed.
+
+Lemma fold_sizes_points f : In f folds ->
+  length (where_isin labels (take ids f)) = list_sum (take (map (count labels) ids) f).
+Proof.
+  intros Hf. destruct bk_folds as [_ [Hc _]].
+  rewrite take_map.
+  - apply length_where_isin. apply (NoDup_concat_In (map (take ids) folds)).
+    + rewrite take_folds by exact Hc. apply block_ids_NoDup, Hshuffle.
+    + apply in_map, Hf.
+  - rewrite Forall_forall. intros b Hb.
+    assert (Hin : In b (concat folds)) by (eapply In_concat_In; eassumption).
+    rewrite Hc in Hin. apply in_seq in Hin. lia.
+Qed.
+
+Lemma total_points : list_sum (map (count labels) ids) = n.
+Proof.
+  rewrite <- length_where_isin by (apply block_ids_NoDup, Hshuffle).
+  rewrite where_isin_all; [apply seq_length|].
+  intros x Hx. apply (block_ids_In labels shuffle); assumption.
+Qed.
+
+Lemma list_max_perm l l' : Permutation l l' -> list_max l = list_max l'.
+Proof.
+  induction 1 as [|x l l' _ IH|x y l|l l' l'' _ IH1 _ IH2].
+  - reflexivity.
+  - change (Nat.max x (list_max l) = Nat.max x (list_max l')). rewrite IH. reflexivity.
+  - change (Nat.max y (Nat.max x (list_max l)) = Nat.max x (Nat.max y (list_max l))). lia.
+  - congruence.
+Qed.
+
+(** balanced path: the test folds' point counts are within one block's
+    population (the largest) of n // n_splits, the last fold also carrying
+    n mod n_splits *)
+Theorem bk_balance : balance = true -> warned = false ->
+  balance_ok (n / k) (n mod k) (list_max (map (count labels) (usort labels)))
+             (map (fun s => length (snd s)) splits) = true.
+Proof.
+  intros Hb Hw. assert (Hk := bk_k).
+  rewrite <- (map_map snd (@length nat)), bk_tests.
+  assert (Hfolds := fold_sizes_points). revert Hfolds.
+  assert (Hwd := bk_warned). rewrite Hw in Hwd. revert Hwd.
+  unfold folds, block_folds. rewrite Hb. fold ids.
+  destruct (partition_by_sum (map (count labels) ids) k) as [sp|] eqn:E; [|discriminate].
+  cbn [fst snd]. intros _ Hfolds.
+  remember (list_max (map (count labels) (usort labels))) as M eqn:HM.
+  rewrite map_map. erewrite map_ext_in; [|intros f Hf; apply Hfolds, Hf].
+  rewrite <- (map_map (take (map (count labels) ids)) (@list_sum)).
+  unfold np_split, take. rewrite slices_map.
+  replace (length (usort labels)) with (length (map (count labels) ids))
+    by (rewrite map_length; apply block_ids_length, Hshuffle).
+  rewrite map_nth_seq.
+  assert (Hbal := pbs_balance _ _ _ E ltac:(lia)). rewrite total_points in Hbal.
+  rewrite (list_max_perm _ (map (count labels) (usort labels))) in Hbal
+    by (apply Permutation_map, block_ids_perm, Hshuffle).
+  rewrite HM. exact Hbal.
+Qed.
+
+(** a warning is raised only when balancing was requested and partition_by_sum
+    failed; then, and when balancing is off, the folds are sklearn KFold's
+    folds over the blocks (equal block counts up to one) *)
+Theorem bk_fallback :
+  (warned = true -> balance = true /\ partition_by_sum (map (count labels) ids) k = None) /\
+  (warned = true \/ balance = false ->
+   map snd splits = map (fun f => where_isin labels (take ids f)) (kfold (length (usort labels)) k)).
+Proof.
+  rewrite bk_tests. assert (Hwd := bk_warned). revert Hwd. unfold folds, block_folds. fold ids.
+  destruct balance.
+  - destruct (partition_by_sum (map (count labels) ids) k) as [sp|] eqn:E; cbn [fst snd]; intros ->.
+    + split; [discriminate|]. intros [H|H]; discriminate.
+    + split; [intros _; split; reflexivity|reflexivity].
+  - cbn [fst snd]. intros ->. split; [discriminate|reflexivity].
+Qed.
+
+End BlockKFold.
+
+(** rejection: exactly when n_splits < 2 or exceeds the number of occupied blocks *)
+Theorem bk_rejects labels k shuffle balance :
+  block_kfold labels k shuffle balance = None <-> (k < 2 \/ length (usort labels) < k).
+Proof.
+  unfold block_kfold. rewrite <- !Nat.ltb_lt, <- orb_true_iff.
+  destruct ((k <? 2) || (length (usort labels) <? k)); split; intros H; try reflexivity; discriminate.
+Qed.
